@@ -2,7 +2,8 @@ import Convergen.Model.Builder
 import Convergen.Model.Render
 /-!
 # C05 — every reachable destination field is accounted for exactly once
-(the covering theorem proper is in `Props/C05Cover.lean`)
+(the covering theorem proper — exactly once, at every depth — is in `Props/Cover.lean`,
+built on the structural invariant of `Props/BuilderInv.lean`)
 -/
 namespace Convergen.Props.C05
 open Convergen
@@ -38,8 +39,12 @@ theorem imported_unexported_inaccessible (structNode : Node) (leaf : String)
   · rfl
   · simp [hext, hunexp]
 
-/-! ### finding (DESIGN §5 #14): a nested by-value struct pair whose destination side has no
-accessible member yields no line at all — the `dropped` statement renders to nothing. -/
-example (env : Env) (l : Node) (w : List String) : Stmt.toAssignments env (.dropped l w) = [] := rfl
+/-! ### former finding (DESIGN §5 #14), repaired in reedom/convergen: a nested by-value struct pair
+whose destination side has no accessible member used to yield no line at all.  The model no longer
+has a `dropped` statement: every statement form renders at least one line. -/
+theorem every_statement_renders (env : Env) (s : Stmt) : Stmt.toAssignments env s ≠ [] := by
+  cases s with
+  | simple l r e w => cases r <;> simp [Stmt.toAssignments]
+  | _ => simp [Stmt.toAssignments]
 
 end Convergen.Props.C05
